@@ -308,6 +308,7 @@ META["C05"] = dict(
     rule="channels: a case is (multiset of argument type skeletons, valid | near-miss class, set of channels run); modes: "
     "(type skeletons, modes run). Distinct by hash; non-trivial = at least two channels reached a decision.",
     gates={
+        "st.values_a_lenient_member_would_convert_again": g(15, 150),
         "st.partial_class_settings_over_default_spec": g(30, 300),
         "st.argv_subkey_spelling": g(100, 1000),
         "mon.channel_pairs_compared": g(4000, 40000),
